@@ -309,6 +309,11 @@ impl FileManager {
             )));
         }
 
+        #[cfg(zipora_verif)]
+        if crate::verif::fault("cache.read_page") {
+            return Err(ZiporaError::invalid_data("injected page read error".to_string()));
+        }
+
         let mut files = self.files.write()
             .map_err(|_| ZiporaError::invalid_data("FileManager lock poisoned".to_string()))?;
         
